@@ -226,6 +226,11 @@ func accountsGenPaths(r *Rng, tier string) accountsCase {
 	for k := 0; k < n; k++ {
 		c.Muts = append(c.Muts, accountsGenMut(r, dirs, files, links, missing))
 	}
+	// a declared list may repeat a mutation (A, B, A: re-own what was made in between); the list is applied as declared
+	if len(c.Muts) >= 2 && r.Chance(25) {
+		c.Muts = append(c.Muts, c.Muts[r.Intn(len(c.Muts)-1)])
+	}
+	c.IncMuts = r.Intn(len(c.Muts) + 1)
 	return c
 }
 
@@ -478,7 +483,125 @@ func accountsGenE2E(r *Rng) accountsCase {
 		c.Muts = append(c.Muts, m)
 	}
 	c.Include = r.Chance(30)
+	// REPEATED declarations: an interfering sequence A, B, A (the same mutation again after one that touches what it
+	// set), accounts listed twice.  Every build passes the lists through ImageConfiguration.MergeInto (the copy per
+	// architecture, the include): what arrives must be the declared list, and the layer the fold of all of it.
+	if r.Chance(45) {
+		c.Muts, c.Repeat = accountsGenRepeat(r)
+		c.Include = r.Chance(50)
+	}
+	if c.Include {
+		c.IncMuts = r.Intn(len(c.Muts) + 1)
+		if c.Repeat != "" && r.Chance(50) {
+			c.IncMuts = 1 + r.Intn(len(c.Muts)-1) // the first declaration in the included file, the repetition in the including one
+		}
+	}
+	if len(c.Users) > 0 && r.Chance(15) {
+		c.Users = append(c.Users, c.Users[0])
+	}
+	if len(c.Groups) > 0 && r.Chance(15) {
+		c.Groups = append(c.Groups, c.Groups[0])
+	}
 	return c
+}
+
+// accountsGenRepeat: a path list A, B, A over the tree the base package ships: B changes something A set, the second A
+// sets it again.  Optionally an unrelated mutation in front, in the middle or at the end.
+func accountsGenRepeat(r *Rng) ([]accountsMut, string) {
+	perms := []uint32{0o755, 0o700, 0o750, 0o644, 0o600, 0o4755, 0o1777, 0o2750}
+	uids := []uint32{0, 1000, 65532, 4294967295}
+	gids := []uint32{0, 1000, 4294967295}
+	mk := func(typ, p string) accountsMut {
+		return accountsMut{Type: typ, Path: p, Perms: Pick(r, perms), UID: Pick(r, uids), GID: Pick(r, gids)}
+	}
+	// b gets attributes that differ from a's in permissions and in owner
+	differ := func(a accountsMut, b *accountsMut) {
+		for b.Perms == a.Perms {
+			b.Perms = Pick(r, perms)
+		}
+		for b.UID == a.UID {
+			b.UID = Pick(r, uids)
+		}
+	}
+	var a, b accountsMut
+	kind := Pick(r, []string{"rec-child-rec", "rec-child-rec", "perm-flip", "perm-flip", "newdir-fill-rec", "empty-repeat", "hardlink-repeat", "symlink-repeat"})
+	switch kind {
+	case "rec-child-rec":
+		a = mk("directory", Pick(r, []string{"/srv/tree", "/srv/tree/", "srv/tree", "/srv"}))
+		a.Recursive = true
+		switch r.Intn(4) {
+		case 0:
+			b = mk("permissions", "/srv/tree/a")
+		case 1:
+			b = mk("permissions", "/srv/tree/b/c")
+		case 2:
+			b = mk("directory", "/srv/tree/b")
+			b.Recursive = r.Bool()
+		default:
+			b = mk("empty-file", "/srv/tree/b/new")
+		}
+	case "perm-flip":
+		p := Pick(r, []string{"/usr/bin/tool", "/sbin", "/opt/t1", "/srv/tree/b/c"})
+		a, b = mk("permissions", p), mk("permissions", p)
+	case "newdir-fill-rec":
+		a = mk("directory", "/made/dir")
+		a.Recursive = true
+		if r.Bool() {
+			b = mk("empty-file", "/made/dir/f")
+		} else {
+			b = mk("directory", "/made/dir/sub/deeper")
+		}
+	case "empty-repeat":
+		p := Pick(r, []string{"/made2/empty", "/etc/empty.conf"})
+		a, b = mk("empty-file", p), mk("permissions", p)
+	case "hardlink-repeat":
+		a = mk("hardlink", Pick(r, []string{"/usr/bin/hl", "/made4/hl"}))
+		a.Source = "/opt/t2"
+		b = mk("permissions", Pick(r, []string{"/opt/t2", a.Path})) // one inode under both names
+	case "symlink-repeat":
+		a = mk("symlink", Pick(r, []string{"/usr/bin/sl", "/made3/sl"}))
+		a.Source = "/opt/t1"
+		b = mk("permissions", "/opt/t1")
+	}
+	differ(a, &b)
+	other := func() accountsMut {
+		if r.Bool() {
+			return mk("permissions", "/opt/t2")
+		}
+		return mk("directory", "/made9/other")
+	}
+	var ms []accountsMut
+	if r.Chance(25) {
+		ms = append(ms, other())
+	}
+	ms = append(ms, a, b)
+	if r.Chance(25) && kind != "hardlink-repeat" {
+		ms = append(ms, mk("directory", "/made8/between"))
+	}
+	ms = append(ms, a)
+	if r.Chance(25) {
+		ms = append(ms, mk("directory", "/made7/after"))
+	}
+	return ms, kind
+}
+
+// accountsE2ESetup: what the packages of an end-to-end case ship, as setup operations on a tarfs (the vocabulary of the
+// paths cases): the tree mutatePaths starts from in the build, as far as the path mutations can see it.
+func accountsE2ESetup(pkgs []SPkg) []fsOp {
+	var ops []fsOp
+	for _, p := range pkgs {
+		for _, f := range p.Files {
+			switch f.Type {
+			case "dir":
+				ops = append(ops, fsOp{K: "mkdirall", P: f.Path, N: int(f.Mode)})
+			case "file":
+				ops = append(ops, accountsWh(f.Path, f.Mode, f.Content, p.Name))
+			case "symlink":
+				ops = append(ops, fsOp{K: "symlink", Q: f.Link, P: f.Path})
+			}
+		}
+	}
+	return ops
 }
 
 type accountsLayout struct {
@@ -507,7 +630,7 @@ func accountsRunE2E(c accountsCase) []Step {
 	ic.Contents.Packages = []string{c.Pkgs[0].Name}
 	var out E2EOut
 	if c.Include {
-		out = accountsGlueBuildIncluded(ic, repo)
+		out = accountsGlueBuildIncluded(ic, repo, c.IncMuts)
 	} else {
 		out = e2eBuild(ic, repo, E2EOpts{Archs: []string{"x86_64"}})
 	}
@@ -635,7 +758,29 @@ func accountsRunE2E(c accountsCase) []Step {
 		Mode:   "verdict",
 		NoImpl: true,
 	}}
+	// the layer against the FOLD of the whole declared list (Lean: mutatePaths over buildPaths included own, from the
+	// tree the packages ship)
+	foldTags := []string{"e2e:fold", fmt.Sprintf("e2e:fold:len:%d", len(c.Muts))}
+	if c.Repeat != "" {
+		foldTags = append(foldTags, "e2e:fold:repeat:"+c.Repeat)
+		if c.Include {
+			foldTags = append(foldTags, "e2e:fold:repeat-via-include")
+		}
+	}
+	steps = append(steps, Step{
+		Line:    fmt.Sprintf("acc.fold\t%s\t%d\t%s", accountsWorld(accountsE2ESetup(c.Pkgs)).dump(), c.IncMuts, obs),
+		Go:      "-",
+		Desc:    desc + fmt.Sprintf(" [layer = fold of the declared path list; the first %d declared in the included file]", c.IncMuts),
+		Tags:    foldTags,
+		Mode:    "verdict",
+		NoImpl:  true,
+		Trivial: len(c.Muts) == 0,
+	})
+	steps = append(steps, accountsMergeSteps(c)...)
 	for k, m := range c.Muts {
+		if c.Repeat != "" {
+			break // the demands of one mutation hold right after it, not after the ones that follow on the same objects
+		}
 		steps = append(steps, Step{
 			Line:   fmt.Sprintf("acc.e2e\t%d\t%s", k, obs),
 			Go:     "-",
